@@ -144,6 +144,33 @@ def gen_spec(rng, dim):
 
 
 # ----------------------------------------------------------------------------- masks
+WRITES = ['copy_', 'data.copy_', 'data=', 'data[i]=', 'param-replace', 'load_state_dict']
+
+
+def write_param(torch, rng, module, name, values, how=None):
+    """give `module.<name>` (a mask parameter) new values in one of the ways user code / optimizers / checkpoints do"""
+    how = how or rng.choice(WRITES)
+    old = getattr(module, name)
+    t = torch.tensor(values, dtype=old.dtype).reshape(old.shape)
+    if how == 'copy_':
+        with torch.no_grad():
+            old.copy_(t)
+    elif how == 'data.copy_':
+        old.data.copy_(t)
+    elif how == 'data=':
+        old.data = t
+    elif how == 'data[i]=':
+        for i in range(t.numel()):
+            old.data[i] = t[i]
+    elif how == 'param-replace' and isinstance(old, torch.nn.Parameter):
+        setattr(module, name, torch.nn.Parameter(t, requires_grad=old.requires_grad))
+    else:
+        sd = module.state_dict()
+        sd[name] = t
+        module.load_state_dict(sd)
+    return how
+
+
 def set_masks(torch, rng, p, mode, tpat=None):
     """randomise every trainable masker of the PIT model `p` (shared maskers once).  tpat: {layer name: (r, v)}"""
     from plinio.methods.pit.nn import PITConv1d, PITConv2d, PITLinear
@@ -171,8 +198,7 @@ def set_masks(torch, rng, p, mode, tpat=None):
                 a = [rng.choice(pm.ADV) for _ in range(C)]
             else:
                 a = [rng.choice(pm.BIG) if rng.random() < 0.55 else rng.choice(pm.SMALL + [0.25, -0.25, 0.5 - 2.0 ** -10, 0.5, -0.5, 0.5, -0.5]) for _ in range(C)]
-            with torch.no_grad():
-                fm.alpha.copy_(torch.tensor(a, dtype=fm.alpha.dtype))
+            write_param(torch, rng, fm, 'alpha', a)
         if isinstance(layer, PITConv1d) and layer.timestep_masker.beta.requires_grad:
             K = layer.kernel_size[0]
             L = pm.glen(K)
@@ -183,9 +209,8 @@ def set_masks(torch, rng, p, mode, tpat=None):
             else:
                 r, v = rng.randint(1, K), rng.randint(0, L - 1)
             st = rng.choice(['adv', 'adv', 'open'])
-            with torch.no_grad():
-                layer.timestep_masker.beta.copy_(torch.tensor(pm.beta_for(rng, K, r, st), dtype=layer.timestep_masker.beta.dtype))
-                layer.dilation_masker.gamma.copy_(torch.tensor(pm.gamma_for(rng, K, v, st), dtype=layer.dilation_masker.gamma.dtype))
+            write_param(torch, rng, layer.timestep_masker, 'beta', pm.beta_for(rng, K, r, st))
+            write_param(torch, rng, layer.dilation_masker, 'gamma', pm.gamma_for(rng, K, v, st))
 
 
 SWITCHES = ['train_net_only', 'train_nas_only', 'train_net_and_nas', 'train_features=False', 'train_features=True', 'train_rf=False', 'train_rf=True',
@@ -321,6 +346,28 @@ def net_case(torch, job):
         if job['kind'] == 'pattern':
             first = [nm for nm, l in p.seed.named_modules() if isinstance(l, PITConv1d)][0]
             tpat = {first: (r, v)}
+        # the masks may be written on a wrapper that has ALREADY been observed with other mask values (summary / export /
+        # str / the mask properties): every observer must follow the current parameters, however they were written
+        o['preobserved'] = []
+        if rng.random() < 0.6:
+            set_masks(torch, rng, p, 'mix')
+            for ob in rng.sample(['summary', 'export', 'str', 'properties', 'forward'], rng.randint(1, 3)):
+                if ob == 'summary':
+                    p.summary()
+                elif ob == 'export':
+                    p.export()
+                elif ob == 'str':
+                    str(p)
+                elif ob == 'forward':
+                    with torch.no_grad():
+                        p(*xs)
+                else:
+                    for l_ in p.seed.modules():
+                        if isinstance(l_, (PITConv1d, PITConv2d, PITLinear)):
+                            l_.features_mask, l_.out_features_opt, l_.in_features_opt
+                            if isinstance(l_, PITConv1d):
+                                l_.time_mask, l_.kernel_size_opt, l_.dilation_opt
+                o['preobserved'].append(ob)
         set_masks(torch, rng, p, job['mode'], tpat)
         if job['kind'] == 'custom' and job['variant'].startswith('twosite'):
             # the re-used layer reads the first producer at one call site and ITSELF at the other: unless the two maskers hold
@@ -496,6 +543,15 @@ def layer_case(torch, job):
             tmk.beta.copy_(torch.tensor(beta))
             dmk.gamma.copy_(torch.tensor(gamma))
     layer = PITConv1d(conv, fm, tmk, dmk, fold_bn=fold).double().eval()
+    if not frozen and rng.random() < 0.6:
+        # the layer has been observed with other mask values before the final ones are written (in various ways)
+        r0_, v0_ = rng.randint(1, K), rng.randint(0, pm.glen(K) - 1)
+        write_param(torch, rng, tmk, 'beta', pm.beta_for(rng, K, r0_, 'adv'), 'copy_')
+        write_param(torch, rng, dmk, 'gamma', pm.gamma_for(rng, K, v0_, 'adv'), 'copy_')
+        layer.time_mask, layer.kernel_size_opt, layer.dilation_opt, layer.features_mask
+        write_param(torch, rng, tmk, 'beta', beta)
+        write_param(torch, rng, dmk, 'gamma', gamma)
+        write_param(torch, rng, fm, 'alpha', alpha)
     bn = None
     if job['bn'] and not fold:
         b = nn.BatchNorm1d(cout)
